@@ -316,6 +316,7 @@ def rule_cli(ctx: Ctx) -> RuleReport:
     rep = RuleReport("C01-CLI", "CLI: result + 0, or empty stdout + one stderr line + 1")
     main = ctx.p.func(CLI, "main")
     rep.unit(main.key)
+    _cli_logging(ctx, rep)
     fn = main.node
     tries = [n for n in fn.body if isinstance(n, ast.Try)]
     work = None
@@ -488,6 +489,19 @@ def _strictly_descends(fn, param, arg) -> bool | None:
         if isinstance(e, ast.Name) and e.id == param:
             return True
     return None
+
+
+def _cli_logging(ctx, rep):
+    """'one diagnostic line on stderr': with no handler installed, logging.lastResort prints WARNING+ records to stderr by itself."""
+    cli = ctx.p.module(CLI)
+    main = ctx.p.func(CLI, "main")
+    adds = [c for c in ast.walk(cli.tree) if isinstance(c, ast.Call) and isinstance(c.func, ast.Attribute) and c.func.attr == "addHandler" and isinstance(c.func.value, ast.Call) and (dotted(c.func.value.func) or "").endswith("getLogger")
+            and (not c.func.value.args or (isinstance(c.func.value.args[0], ast.Constant) and c.func.value.args[0].value in ("", "sharepoint2text")))]
+    adds += [c for c in ast.walk(cli.tree) if isinstance(c, ast.Call) and (dotted(c.func) or "") in ("logging.basicConfig", "logging.disable")]
+    if adds:
+        rep.ok({"cli_logging": f"{short(adds[0], 60)}: library log records do not reach stderr on their own"})
+    else:
+        rep.fail(Finding("C01-CLI", CLI, main.qual, "no logging handler installed", "the CLI installs no logging handler: Python's logging.lastResort then writes every WARNING / ERROR record of the library to stderr, so a failing file produces the logged line(s) in addition to the one diagnostic line", line=main.node.lineno))
 
 
 def rule_rec(ctx: Ctx) -> RuleReport:
